@@ -93,7 +93,7 @@ def design_checks(chk, tier):
     thorough = tier == "thorough"
     inv = "".join("INVARIANT %s\n" % i for i in INVARIANTS)
     if thorough:
-        c = constants(intervals=(3, 7, 12), retries=(0, 1, 2), die=(0, 4), modes=ALL_MODES, durations=(2, 6), notify_by=12, max_outputs=2,
+        c = constants(intervals=(3, 7, 12), retries=(0, 2), die=(0, 4), modes=ALL_MODES[:4], durations=(2, 6), notify_by=12, max_outputs=2,
                       extkill=True, max_faults=1, shapes=("direct", "two", "earlierOnly"))
     else:
         # ("mixedProducers" is model-checked with the invariants in its emission run)
@@ -453,7 +453,7 @@ def _run(chk, tier):
     design_checks(chk, tier)
     behaviours = emit_behaviours(chk, tier)
     replays = prepare_replays(behaviours)
-    rand = random_cases(3000 if thorough else 250, chk.seed)
+    rand = random_cases(2000 if thorough else 250, chk.seed)
     slim = [{k: it[k] for k in ("cfg", "sched", "horizon")} for it in replays + rand]
     results = execute(chk, slim, nproc)
     for res in results:
